@@ -1554,6 +1554,8 @@ def v_alias(t: RTable, keep_col_refs, name, handles, mode):
 def v_collect(t: RTable, keep_col_refs, handles, mode):
     new = t.copy()
     vis_ids = {i for _, i in t.vis}
+    if keep_col_refs and any(g not in vis_ids for g in t.group):
+        raise RefReject("ValueError", "only selected columns are collected: a hidden grouping column cannot survive")
     if keep_col_refs:
         new.cols = {i: c for i, c in t.cols.items() if i in vis_ids}
     else:
@@ -1563,4 +1565,20 @@ def v_collect(t: RTable, keep_col_refs, handles, mode):
         new.group = []
         new.sources = frozenset([id(new)])
     new.ordkeys = []
+    return new
+
+
+def v_transfer(t: RTable, ref_source: RTable, handles, mode):
+    """transfer_col_references(table, ref_source): data and names of `table`, column identities of
+    `ref_source` (matched by name)."""
+    rmap = ref_source.name_to_id()
+    for n, _ in t.vis:
+        if n not in rmap:
+            raise RefReject("ValueError", "column missing in the reference source")
+    new = t.copy()
+    mp = {i: rmap[n] for n, i in t.vis}
+    new.cols = {mp[i]: RCol(mp[i], t.cols[i].fam, t.cols[i].data, t.cols[i].name0, t.cols[i].const) for i in mp}
+    new.vis = [(n, mp[i]) for n, i in t.vis]
+    new.group = [mp[i] for i in t.group if i in mp]
+    new.sources = t.sources | ref_source.sources
     return new
